@@ -97,6 +97,7 @@ type FuncVerifier struct {
 	quantDepth   int
 	bound        map[types.Object]Term
 	seenStack    []types.Object
+	riStack      []types.Object
 	pureUsed, inlined, trustedUsed, contractUsed map[string]bool
 	allocBudget  func(st *State) Term
 }
@@ -891,6 +892,7 @@ type loopCfg struct {
 	ord       int
 	label     string
 	extraMods []types.Object
+	idxVar    types.Object
 	sync      func(*State)       // establish derived variables before invariants are evaluated
 	autoInv   func(*State) Term  // engine-supplied invariant
 	cond      func(*State) Term  // loop guard
@@ -928,6 +930,10 @@ func (fv *FuncVerifier) cutLoop(cfg *loopCfg, st *State) *State {
 	fr := fv.frame()
 	ls, ord, loop := cfg.ls, cfg.ord, cfg.loop
 	pos := cfg.body.Lbrace
+	if cfg.idxVar != nil {
+		fv.riStack = append(fv.riStack, cfg.idxVar)
+		defer func() { fv.riStack = fv.riStack[:len(fv.riStack)-1] }()
+	}
 	invs := func(st *State, kind string) {
 		if cfg.sync != nil {
 			cfg.sync(st)
@@ -1111,7 +1117,7 @@ func (fv *FuncVerifier) execRangeLabel(s *ast.RangeStmt, st *State, label string
 				st.vars[kObj] = idx(st)
 			}
 		}
-		res := fv.cutLoop(&loopCfg{loop: s, body: s.Body, ls: ls, ord: ord, label: label, extraMods: []types.Object{iv},
+		res := fv.cutLoop(&loopCfg{loop: s, body: s.Body, ls: ls, ord: ord, label: label, extraMods: []types.Object{iv}, idxVar: iv,
 			sync: bindElems,
 			autoInv: func(st *State) Term {
 				return and(mk(sortBool, "(<= 0 %s)", idx(st).S), mk(sortBool, "(<= %s %s)", idx(st).S, n.S))
